@@ -57,15 +57,18 @@ Proof. destruct g, gw. cbn. now intros -> -> ->. Qed.
 
 (* whenever the rule holds the advertised ratio: the model's own observable passes the decision
    procedure, or the failure is D10 *)
+Lemma eq_listZ_refl l : eq_listZ l l = true.
+Proof. induction l as [|x l IH]; [reflexivity|]. cbn [eq_listZ]. now rewrite Z.eqb_refl, IH. Qed.
+
 Lemma wire_main_fresh inp :
   (let '(g, gw, _) := decode inp in ratio g = ratio gw) ->
   prop_case inp (run_case inp) = 0 \/ finding_sig inp (run_case inp) = 1.
 Proof.
-  unfold prop_case, finding_sig, run_case.
+  unfold prop_case, finding_sig. rewrite eq_listZ_refl. unfold run_case.
   pose proof (decode_same_but_ratio inp) as Hd.
   destruct (decode inp) as [[g gw] cs]. destruct Hd as [Hbe Hcfs]. intro Hr.
   assert (g = gw) by now apply cfg_eq. subst gw.
-  rewrite enc_obs_sized, dec_enc_obs. cbn [negb andb].
+  rewrite andb_true_r, enc_obs_sized, dec_enc_obs. cbn [negb andb].
   destruct (only_d10 g cs) as [H|H]; [now left|right; now rewrite H].
 Qed.
 
